@@ -6,7 +6,9 @@ pub mod obs;
 pub mod model;
 #[macro_use]
 pub mod codecs;
+pub mod fuzzdec;
 pub mod gen;
+#[cfg(feature = "kmer-tables")]
 pub mod kmers;
 pub mod oracle;
 pub mod progs;
